@@ -141,8 +141,10 @@ class Bitvector(CompressionFormat):
     def getSize(self):
         size = math.ceil(len(self.coords) / self.bits_per_word) + len(self.occupancies)
         
-        # count payloads only if next level is encoded
-        if self.next_fmt == None or self.next_fmt.encodeUpperPayload():
+        # count payloads only at the leaf level: the payloads of a
+        # non-leaf fiber are its children, whose words are the
+        # occupancies counted above
+        if self.next_fmt == None:
             size += len(self.payloads)
         return size
 
